@@ -33,8 +33,12 @@ def run(ctx):
     ctx.rule("R02.3", "incremental parser: header faults after which parsing continues are exactly {Ok, UnsupportedValue}; others become ParseError(fault)")
     ctx.rule("R02.4", "URI: empty or non-UTF-8 rejected with InvalidUri, otherwise stored verbatim")
     ctx.rule("R02.5", "the bytes handed to the line parsers are exactly buffer[line start .. CRLF found), and the next line starts after the CRLF")
-    ctx.guarded("R02.1", "order", lambda: order(ctx))
-    ctx.guarded("R02.1", "parts", lambda: parts(ctx))
+    if ORDER[0] in ctx.facts.fns:
+        ctx.guarded("R02.1", "order", lambda: order(ctx))
+        ctx.guarded("R02.1", "parts", lambda: parts(ctx))
+    else:
+        # the splitting helper is gone: the same two obligations on the code of RequestLine::try_from itself
+        ctx.guarded("R02.1", "inlined", lambda: inlined_line(ctx))
     ctx.guarded("R02.2", "Method", lambda: token_roundtrip(ctx, "R02.2", "common::Method", "common::Method::try_from", "common::Method::raw"))
     ctx.guarded("R02.2", "Version", lambda: token_roundtrip(ctx, "R02.2", "common::Version", "common::Version::try_from", "common::Version::raw"))
     ctx.guarded("R02.2", "errors", lambda: token_errors(ctx))
@@ -92,9 +96,8 @@ def order(ctx):
     ctx.ob("R02.1", "order|paths", full == 1 and len(lv) == 5, "%d paths, %d accepting (expected 5 and 1)" % (len(lv), full), fn.loc(0))
 
 
-def parts(ctx):
-    fn, lv = leaves(ctx, "request::RequestLine::parse_request_line")
-
+def _pieces(ctx):
+    """Predicates on terms of a function whose argument 1 is the request line: which expression is which piece."""
     def is_find_sp(t, hay_pred):
         t = look(t)
         return is_call(t, "request::find") and conn.const_bytes(t[2][1]) == b" " and hay_pred(look(t[2][0]))
@@ -151,6 +154,16 @@ def parts(ctx):
                 return None
         return k
 
+    import types
+    return types.SimpleNamespace(**{k: v for k, v in locals().items() if callable(v)})
+
+
+def parts(ctx):
+    fn, lv = leaves(ctx, "request::RequestLine::parse_request_line")
+
+    P_ = _pieces(ctx)
+    is_find_sp, some_payload, plus1, rng, is_arg, first_sp, m_end, rest, second_sp, u_end, splitn_piece = P_.is_find_sp, P_.some_payload, P_.plus1, P_.rng, P_.is_arg, P_.first_sp, P_.m_end, P_.rest, P_.second_sp, P_.u_end, P_.splitn_piece
+
     n_ok = 0
     for lf in lv:
         rk = ret_kind(lf)
@@ -200,6 +213,88 @@ def parts(ctx):
                     none1, none2 = k in (0, 1), k == 2
             ctx.ob("R02.1", "parts|malformed|%s" % ("no-first-sp" if none1 else "no-second-sp" if none2 else "other"), (none1 or none2) and e[0] == "agg" and e[2] == "InvalidRequest", "a line without two SP is InvalidRequest (malformed shape)", fn.loc(lf.bb))
     ctx.ob("R02.1", "parts|one-accepting-path", n_ok == 1, "%d accepting path(s) in parse_request_line" % n_ok, fn.loc(0))
+
+
+def inlined_line(ctx):
+    """R02.1 when RequestLine::try_from cuts the line itself (no splitting helper).  Same content as order() + parts():
+    the accepted value is built from Method(piece 0), Uri(piece 1), Version(piece 2); a failure of a conversion is returned
+    only on a path on which both SP were found and every earlier conversion succeeded (shape, then method, URI, version);
+    a missing SP is InvalidRequest."""
+    P_ = _pieces(ctx)
+    fn, lv = leaves(ctx, "request::RequestLine::try_from", lower=True)
+    conv = ORDER[1:]
+    n_ok = n_shape = 0
+    rej = set()
+
+    def piece(x, k):
+        x = look(x)
+        sp = P_.splitn_piece(x)
+        if sp is not None:
+            return sp == k
+        if not is_call(x, "index"):
+            return False
+        if k == 0:
+            return P_.is_arg(x[2][0]) and P_.rng(x[2][1], "RangeTo") is not None and P_.m_end(P_.rng(x[2][1], "RangeTo")[0])
+        if k == 1:
+            return P_.rest(x[2][0]) and P_.rng(x[2][1], "RangeTo") is not None and P_.u_end(P_.rng(x[2][1], "RangeTo")[0])
+        return P_.rest(x[2][0]) and P_.rng(x[2][1], "RangeFrom") is not None and P_.plus1(P_.rng(x[2][1], "RangeFrom")[0], P_.u_end)
+
+    def sp_test(t, c):
+        """(which SP: 1 | 2, 'some' | 'none') when the condition tests one of the two searches (or a piece of splitn)"""
+        from .util import option_test
+        for which, pred in ((1, P_.first_sp), (2, P_.second_sp)):
+            o = option_test(t, c, pred)
+            if o is not None:
+                return which, o
+        o = option_test(t, c, lambda y: is_call(y, "next"))
+        if o is not None:
+            from .util import tested_call
+            k = P_.splitn_piece(("payload", tested_call(t, c)[0]))
+            if k is not None:
+                # piece 0 always exists; piece 1 exists iff there is a first SP, piece 2 iff there is a second one
+                return (k, o) if k in (1, 2) else (None, None)
+        return None, None
+
+    def found_on(lf, which):
+        """the path has established that the first / second SP exists"""
+        return any(sp_test(t, c) == (which, "some") for (t, c, _b) in lf.conds)
+
+    for lf in lv:
+        if lf.kind != "return":
+            continue
+        rk = ret_kind(lf)
+        if rk is None:
+            continue
+        seq = [e[3] for e in lf.events if e[0] == "call" and e[3] in conv]
+        if rk[0] == "Ok":
+            n_ok += 1
+            r = look(rk[1])
+            names = [f["name"] for f in ctx.facts.struct_fields("request::RequestLine")]
+            good = seq == conv and r[0] == "agg" and r[1] == "request::RequestLine"
+            if good:
+                for k, (field, callee) in enumerate(zip(("method", "uri", "http_version"), conv)):
+                    v = r[3][names.index(field)]
+                    good = good and payload_of(v) is not None and is_call(payload_of(v), callee) and piece(payload_of(v)[2][0], k)
+            ctx.ob("R02.1", "inlined|accept", good, "accepting path: Method(line[..first SP]), Uri(between the first two SP), Version(everything after the second SP), each stored in its own field", fn.loc(lf.bb))
+            continue
+        if rk[0] == "prop":
+            src, e = propagated_error(rk[1])
+        else:
+            src, e = None, look(rk[1])
+        if src is not None and is_call(src, *conv):
+            k = conv.index([c for c in conv if is_call(src, c)][0])
+            shape = found_on(lf, 1) and found_on(lf, 2)
+            good = shape and seq == conv[: k + 1]
+            rej.add(k)
+            ctx.ob("R02.1", "inlined|reject-%s" % conv[k].split("::")[-2], good, "the fault of the %s is reported only once both SP were found and every earlier element was accepted (malformed shape, then method, URI, version)" % conv[k].split("::")[-2], fn.loc(lf.bb))
+        elif any(sp_test(t, c)[1] == "none" for (t, c, _b) in lf.conds):
+            n_shape += 1
+            ctx.ob("R02.1", "inlined|malformed", e is not None and e[0] == "agg" and e[2] == "InvalidRequest", "a line without two SP is InvalidRequest (malformed shape)", fn.loc(lf.bb))
+        elif src is not None and is_call(src, "checked_add"):
+            pass        # index arithmetic that cannot fail for a slice in memory
+        else:
+            ctx.fail("R02.1", "inlined|other-return", "RequestLine::try_from has a return that is neither Ok, nor a missing SP, nor the fault of an element", fn.loc(lf.bb))
+    ctx.ob("R02.1", "inlined|paths", n_ok == 1 and n_shape >= 1 and rej == {0, 1, 2}, "%d accepting path(s), %d malformed-shape path(s), element faults returned for %s (expected 1, >= 1, all three)" % (n_ok, n_shape, sorted(conv[k].split("::")[-2] for k in rej)), fn.loc(0))
 
 
 def token_errors(ctx):
@@ -322,13 +417,41 @@ def uri(ctx):
 
 def lines(ctx):
     """R02.5: what is handed to the line parsers and how the line start advances."""
-    def buf_range(t):
-        """t = Index::index(&self.buffer, Range{start, end}) -> (start, end) terms"""
+    def flat(ts):
+        out = []
+        for t in ts:
+            sm = as_sum(t)
+            if sm is not None:
+                out += flat(list(sm))
+            elif const_of(t) != 0:
+                out.append(t)
+        return out
+
+    def buf_slice(t):
+        """t = a slice of self.buffer, possibly a slice of a slice (`let window = &buffer[a..b]; &window[..i]`)
+        -> (lo, hi): the bounds inside the buffer as lists of summands (hi None = the end of the buffer)."""
         t = look(t)
-        if is_call(t, "index") and self_field(t[2][0], "buffer"):
-            r = look(t[2][1])
-            if r[0] == "agg" and r[1].startswith("std::ops::Range") and len(r[3]) == 2:
-                return r[3]
+        if not is_call(t, "index"):
+            return None
+        if self_field(t[2][0], "buffer"):
+            lo, hi = [], None
+        else:
+            inner = buf_slice(t[2][0])
+            if inner is None:
+                return None
+            lo, hi = inner
+        r = look(t[2][1])
+        if r[0] != "agg":
+            return None
+        kind = r[1].split("<")[0]
+        if kind == "std::ops::Range" and len(r[3]) == 2:
+            return flat(lo + [r[3][0]]), flat(lo + [r[3][1]])
+        if kind == "std::ops::RangeTo" and len(r[3]) == 1:
+            return lo, flat(lo + [r[3][0]])
+        if kind == "std::ops::RangeFrom" and len(r[3]) == 1:
+            return flat(lo + [r[3][0]]), hi
+        if kind == "std::ops::RangeFull":
+            return lo, hi
         return None
 
     def is_start(t):
@@ -337,15 +460,16 @@ def lines(ctx):
     def find_payload(t):
         t = look(t)
         if payload_of(t) is not None and conn.is_find_crlf(payload_of(t)):
-            hay = buf_range(look(t[1][1])[2][0])
-            return hay is not None and is_start(hay[0]) and look(hay[1]) == ("arg", 3)
+            hay = buf_slice(look(t[1][1])[2][0])
+            return hay is not None and len(hay[0]) == 1 and is_start(hay[0][0]) and hay[1] is not None and len(hay[1]) == 1 and look(hay[1][0]) == ("arg", 3)
         return False
 
-    def start_plus_found(t):
-        sm = as_sum(t)
-        if sm is None:
+    def line_slice(t):
+        """buffer[start .. start + found), however the two slicings are nested"""
+        r = buf_slice(t)
+        if r is None or r[1] is None or len(r[0]) != 1 or len(r[1]) != 2 or not is_start(r[0][0]):
             return False
-        a, b = sm
+        a, b = r[1]
         return (is_start(a) and find_payload(b)) or (is_start(b) and find_payload(a))
 
     def plus2(t, pred):
@@ -382,8 +506,7 @@ def lines(ctx):
         ev = [e for e in lf.events if e[0] == "call" and e[3] == "request::RequestLine::try_from"]
         for e in ev:
             n += 1
-            r = buf_range(e[4][2][0])
-            ok = r is not None and is_start(r[0]) and start_plus_found(r[1])
+            ok = line_slice(e[4][2][0])
             ctx.ob("R02.5", "request-line|slice", ok, "RequestLine::try_from gets buffer[start .. start + find(buffer[start..end], CRLF))", fn.loc(e[1]))
             adv = [a for a in lf.events if a[0] == "assign" and a[3] == "(*_2)"]
             ok2 = len(adv) == 1 and advance_ok(fn, lf, adv[0][4])
@@ -396,8 +519,7 @@ def lines(ctx):
         ev = [e for e in lf.events if e[0] == "call" and e[3] == conn.PHL]
         for e in ev:
             n += 1
-            r = buf_range(e[4][2][1])
-            ok = r is not None and is_start(r[0]) and start_plus_found(r[1])
+            ok = line_slice(e[4][2][1])
             ctx.ob("R02.5", "header-line|slice", ok, "parse_header_line gets buffer[start .. start + find(..))", fn.loc(e[1]))
             rk = ret_kind(lf)
             if rk and rk[0] == "Ok":
